@@ -446,6 +446,10 @@ func runC03(c *Checker) {
 		c.fail("HSK-ERR", "callers of DoHandshake", token.NoPos, fmt.Sprintf("expected the gRPC client and server handshakes, Dial and the listener, found %d callers", nCallers))
 	}
 	ruleMachineReplacedFirst(c, "HSK-ERR")
+	// the key a KK responder authenticates act one against is whatever ConnData holds: it must be
+	// a key whose pairing completed (SetRemote stores it on success only, nothing else writes it) -
+	// a key left behind by a refused pairing would be accepted on the next connection (SIDFRESH, as C11/C17)
+	ruleRemoteKey(c)
 	c.floor("HSK-ERR", 21)
 
 	// ---- HSK-SIB ----
@@ -637,6 +641,33 @@ func runC03(c *Checker) {
 	for t := range wdh {
 		if _, ok := wantDH[t]; !ok {
 			c.fail("HSK-SIB", "dh|"+t+"|unexpected DH", wdpos[t], fmt.Sprintf("an ecdh call outside the four DH tokens: %v", wdh[t]))
+		}
+	}
+	// ... and nothing but the DH outputs of this very handshake is mixed into the chaining key: every
+	// value that can reach a mixKey call of the two token processors is result 0 of an ecdh call of
+	// that invocation (a remembered secret - cached per local key, say - authenticates whoever the
+	// cache entry was computed for, not the peer of this handshake)
+	for _, fn := range []*ssa.Function{wfn, rfn} {
+		if fn == nil {
+			continue
+		}
+		for _, mk := range findCalls(fn, func(ci ssa.CallInstruction) bool { return calleeNameIsCI(ci, "mixKey") }) {
+			bad := ""
+			args := mk.Common().Args
+			for _, v := range expandValues(args[len(args)-1]) {
+				if ex, ok := v.(*ssa.Extract); ok && ex.Index == 0 {
+					if call, ok := ex.Tuple.(*ssa.Call); ok && calleeNameIs(call, "ecdh") && call.Parent() == fn {
+						continue
+					}
+				}
+				if isNilConst(v) {
+					continue // the zero value of a result variable on a leg that returns the error
+				}
+				bad = w.canonFB(v)
+			}
+			c.decide(bad == "", "HSK-SIB", fmt.Sprintf("%s|mixKey input is a DH output of this handshake|%s", fn.Name(), w.canonFB(args[len(args)-1])), instrPos(mk),
+				"every value reaching mixKey is the result of an ecdh call of this invocation",
+				"a value that is not the output of an ecdh call of this handshake ("+bad+") can be mixed into the chaining key: a remembered or foreign secret authenticates a party that does not hold the keys of this handshake")
 		}
 	}
 	checkMeCase(c, wt, rt)
